@@ -1,3 +1,5 @@
+\* C29 thorough: 2 channels, 4 items, 2 keys + keyless, 2 payloads, <=1 injected failure, 1-2 batches in flight.
+\* 753,004 distinct states (1,864,723 generated), 8 min at load 30, 8 workers.
 SPECIFICATION Spec
 CONSTANTS
   NChans = 2
